@@ -98,7 +98,46 @@ def check_counter(ctx, n):
         ctx.violate("C08.fresh_counter_per_context", {"n": 3}, {"got": got2, "want": want2}, "ident.counter")
 
 
+def check_fresh_context_concurrent(ctx, n):
+    """Two or three threads start the first operations of a FRESH context at the same time (the context's call counter is
+    documented as thread-safe).  Every source line of context.py / threading.py is a scheduling point here."""
+    from harness.sim import Sim, patched
+    for it in range(n):
+        seed = ctx.rng.randrange(1 << 30)
+        sim = Sim(seed=seed, policy="pct" if seed % 3 == 0 else "random", max_points=20000, wall_limit=20)
+        sim.line_points = lambda code: code.co_filename.endswith(("aws_durable_execution_sdk_python/context.py",
+                                                                  "aws_durable_execution_sdk_python/threading.py"))
+        k = ctx.rng.choice([2, 2, 3])
+        got = {}
+        with patched(sim):
+            root = _mk_root()
+            child = root.create_child_context(root._create_step_id())
+
+            def worker(j):
+                def f():
+                    got[j] = child._create_step_id()
+                return f
+
+            def main():
+                ths = [sim.Thread(target=worker(j), name=f"w{j}") for j in range(k)]
+                for t in ths:
+                    t.start()
+                for t in ths:
+                    t.join()
+            sim.stop_when_main_done = False
+            sim.run(main)
+            want = sorted(child._create_step_id_for_logical_step(j) for j in range(1, k + 1))
+        ctx.case(("fresh", seed))
+        ctx.count("ident.fresh_concurrent")
+        if sim.hung or sim.limit_hit:
+            ctx.violate("C08.counter_wedged", {"threads": k, "seed": seed, "decisions": list(sim.decisions)}, {"hung": sim.hung}, "ident.fresh", kind="schedule")
+        elif sorted(got.values()) != want:
+            ctx.violate("C08.concurrent_first_operations_share_an_id", {"threads": k, "seed": seed, "decisions": list(sim.decisions)},
+                        {"got": sorted(got.values()), "want": want}, "ident.fresh", kind="schedule")
+
+
 def run(ctx):
+    check_fresh_context_concurrent(ctx, ctx.scale(120, 3000))
     n = ctx.scale(400, 8000)
     paths = [gen_path(ctx.rng) for _ in range(n)]
     # small exhaustive scope first
